@@ -10,7 +10,8 @@ META = {
               'enspara/cluster/util.py', 'enspara/geometry/libdist.pyx', 'enspara/info_theory/libinfo.pyx', 'enspara/ra/ra.py'],
     'functions': ['enspara.info_theory.entropy.shannon_entropy', 'enspara.info_theory.mutual_info.mutual_information',
                   'every masked ufunc call without out= and every np.empty* found by the AST scan of the anchored files',
-                  'prange loops of libdist / libinfo (E2 iteration-independence obligations)'],
+                  'prange loops of libdist / libinfo (E2 iteration-independence obligations)',
+                  'enspara.cluster.util.assign_to_nearest_center / KCenters.predict (arguments and metric results not written)'],
     'bounds': {'quick': 'shannon_entropy: length<=3 with 0..2 zero entries; mutual_information: 1x2 feature pairs of 2x2 tables with '
                         'and without an unobserved pair; kernels: see C13/C18 evidence',
                'thorough': 'same, larger tables'},
@@ -84,6 +85,13 @@ def jobs(tier):
             J.append(dict(module='harness.C04', func='builder_job', name='%s[n=%d,zero rows allowed]' % (which, n),
                           kwargs=dict(which=which, n=n, eq=False, zero_rows=True), sig_prefix='uninit', deadline_s=250 if q else 1500,
                           timeout_ms=30000 if q else 120000, tol=1e-5))
+    # cluster/util.py: assign_to_nearest_center / predict must not write into the arrays the metric hands back (a metric may
+    # return views of its own distance table: writing there changes the answer of the NEXT call) and must not modify their arguments
+    for N_, K_ in ((2, 2), (3, 2), (2, 3)) + (() if q else ((4, 3), (3, 4))):
+        J.append(dict(module='harness.C10', func='assign_job', name='assign_to_nearest_center[N=%d,K=%d]' % (N_, K_), kwargs=dict(N=N_, K=K_),
+                      sig_prefix='uninit', deadline_s=250 if q else 1500))
+    J.append(dict(module='harness.C10', func='assign_job', name='predict[N=3,K=2]', kwargs=dict(N=3, K=2, entry='predict'),
+                  sig_prefix='uninit', deadline_s=250 if q else 1500))
     from harness import kernels
     J += kernels.jobs_for('C19', tier)
     return J
